@@ -1,6 +1,6 @@
 (* C05 - parameters are decoded as the inverse of OpenAPI style serialisation. *)
 From KV Require Import Model.Base Model.Json Model.Schema Model.Request Model.Lookup Model.ParamCodec
-     Spec.ParamSpec Proofs.C05Proofs.
+     Spec.ParamSpec Proofs.C05Proofs Proofs.C05Object.
 Local Open Scope list_scope.
 
 (* strings.Split inverts strings.Join for any separator and any non-empty list of elements that
@@ -25,6 +25,26 @@ Theorem C05_array_roundtrip :
     decode_param pi64 pi32 pf p (ser p (SArr ts)) = DRes (PA vs) true None.
 Proof. exact array_roundtrip. Qed.
 Print Assumptions C05_array_roundtrip.
+
+(* flat objects, every (in, style, explode) cell that defines an object serialisation: decoding the
+   serialisation of the member list yields an object with exactly the members read as their declared
+   types (equality of Go maps: the same value under every key) - for every number of members and
+   every member text meeting the named guards (non-empty, free of the cell's separators, names
+   unique and declared, no additionalProperties schema) *)
+Theorem C05_object_roundtrip :
+  forall pi64 pi32 pf p kvs decl l,
+    allowed_cell (pd_in p) (eff_style p) (eff_explode p) = true ->
+    defined_cell p (SObj kvs) = true ->
+    shape_of (pd_schema p) = ShObj decl None ->
+    kvs <> [] -> nodup_s (map fst kvs) = true -> nodup_s (map fst decl) = true ->
+    Forall (fun t => t <> ""%string) (flat kvs) ->
+    (pd_in p = LQuery /\ eff_explode p = true \/ clean (obj_sep (pd_in p) (eff_style p) (eff_explode p)) (flat kvs)) ->
+    (eq_form (pd_in p) (eff_explode p) = true -> clean "="%char (flat kvs)) ->
+    members pi64 pi32 pf kvs decl None = Some l -> Forall (fun kv => snd kv <> PNil) l ->
+    exists m, decode_param pi64 pi32 pf p (ser p (SObj kvs)) = DRes (PO m) true None /\
+              forall k, assoc k m = assoc k l.
+Proof. exact object_roundtrip. Qed.
+Print Assumptions C05_object_roundtrip.
 
 (* primitives, every cell *)
 Theorem C05_prim_roundtrip :
@@ -69,6 +89,34 @@ Proof. vm_compute. reflexivity. Qed.
 Theorem C05_refuted_separator_in_element :
   decode_param no_int no_int no_float pq (ser pq (SArr ["a,b"; "c"])) = DRes (PA [PS "a"; PS "b"; PS "c"]) true None.
 Proof. vm_compute. reflexivity. Qed.
+
+(* class 6: an undeclared member is silently dropped;  class 4: with an additionalProperties schema
+   a declared integer member comes back as a string *)
+Definition intS : schema := Sch (mkCore (Some ["integer"]) [] false false false false "" false false false None None None 0 None "" 0 None [] 0 None None) None [] [] [] None [] None.
+Definition objS (ap : option schema) : schema :=
+  Sch (mkCore (Some ["object"]) [] false false false false "" false false false None None None 0 None "" 0 None [] 0 None None) None [] [] [] None [("n", intS); ("s", strS)] ap.
+Definition one_int (t : string) : option Z := if String.eqb t "7" then Some 7%Z else None.
+Definition po (ap : option schema) : pdef := mkPDef LPath "id" "label" (Some true) true false (objS ap).
+Theorem C05_refuted_undeclared_member_dropped :
+  decode_param one_int one_int no_float (po None) (ser (po None) (SObj [("n", "7"); ("zz", "x")]))
+  = DRes (PO [("n", PI64 7)]) true None.
+Proof. vm_compute. reflexivity. Qed.
+Theorem C05_refuted_additional_properties_retype :
+  decode_param one_int one_int no_float (po (Some strS)) (ser (po (Some strS)) (SObj [("n", "7")]))
+  = DRes (PO [("n", PS "7")]) true None.
+Proof. vm_compute. reflexivity. Qed.
+
+(* non-vacuity: a label/explode path object meets every hypothesis of the object theorem *)
+Example C05_object_hyps_satisfiable :
+  let p := po None in
+  let kvs := [("s", "a,b"); ("n", "7")] in
+  allowed_cell (pd_in p) (eff_style p) (eff_explode p) = true /\
+  defined_cell p (SObj kvs) = true /\
+  shape_of (pd_schema p) = ShObj [("n", core_of intS); ("s", core_of strS)] None /\
+  ser p (SObj kvs) = mkFrag [("id", ".s=a,b.n=7")] [] [] [] /\
+  members one_int one_int no_float kvs [("n", core_of intS); ("s", core_of strS)] None = Some [("s", PS "a,b"); ("n", PI64 7)] /\
+  decode_param one_int one_int no_float p (ser p (SObj kvs)) = DRes (PO [("n", PI64 7); ("s", PS "a,b")]) true None.
+Proof. vm_compute. repeat split. Qed.
 
 (* non-vacuity: a matrix/explode path array meets every hypothesis *)
 Example C05_hyps_satisfiable :
